@@ -135,23 +135,62 @@ def r05a(repo, chk):
     cfg2, rd2 = fn_ctx(ru)
     ok = False
     detail = []
+
+    def whole_line(v):
+        # <line>.split()  /  <line>.strip().split(): all tokens of the line, nothing cut away
+        if not (isinstance(v, ast.Call) and isinstance(v.func, ast.Attribute) and v.func.attr == "split" and not v.args):
+            return False
+        r = v.func.value
+        if isinstance(r, ast.Call) and isinstance(r.func, ast.Attribute) and r.func.attr in ("strip", "rstrip", "lstrip") and not r.args:
+            r = r.func.value
+        return isinstance(r, ast.Name)
+
+    ELEM = {"tokens": "token", "lines_tokens": "tokens"}
+
+    def kind_of_expr(e, depth=0):
+        """'tokens' (all tokens of one line), 'lines_tokens' (that for every line), 'token' (one whole token) or None."""
+        if depth > 6:
+            return None
+        if whole_line(e):
+            return "tokens"
+        if isinstance(e, (ast.ListComp, ast.GeneratorExp)) and len(e.generators) == 1 and not e.generators[0].ifs and whole_line(e.elt):
+            return "lines_tokens"
+        if isinstance(e, ast.Name):
+            return kind_of_name(e, depth + 1)
+        return None
+
+    def kind_of_name(nm, depth=0):
+        # bound by an enclosing comprehension?
+        p = getattr(nm, "parent", None)
+        while p is not None and p is not ru:
+            if isinstance(p, (ast.ListComp, ast.SetComp, ast.GeneratorExp, ast.DictComp)):
+                for gen in p.generators:
+                    if isinstance(gen.target, ast.Name) and gen.target.id == nm.id:
+                        return ELEM.get(kind_of_expr(gen.iter, depth + 1))
+            p = getattr(p, "parent", None)
+        ids = live_ids(cfg2, nm)
+        ds = rd2.at(ids[0], nm.id) if ids else []
+        kinds = set()
+        for d in ds:
+            if d.kind == "assign" and not d.index and d.value is not None:
+                kinds.add(kind_of_expr(d.value, depth + 1))
+            elif d.kind == "for" and d.value is not None and not d.index:
+                kinds.add(ELEM.get(kind_of_expr(d.value, depth + 1)))
+            else:
+                kinds.add(None)
+        return kinds.pop() if len(kinds) == 1 else None
+
     for c in ins:
-        ids = live_ids(cfg2, c)
-        if not ids:
-            continue
-        ds = rd2.at(ids[0], c.comparators[0].id)
-        def whole_line(v):
-            # <line>.split()  /  <line>.strip().split(): all tokens of the line, nothing cut away
-            if not (isinstance(v, ast.Call) and isinstance(v.func, ast.Attribute) and v.func.attr == "split" and not v.args):
-                return False
-            r = v.func.value
-            if isinstance(r, ast.Call) and isinstance(r.func, ast.Attribute) and r.func.attr in ("strip", "rstrip", "lstrip") and not r.args:
-                r = r.func.value
-            return isinstance(r, ast.Name)
-        if ds and all(d.kind == "assign" and whole_line(d.value) for d in ds):
+        lk, rk = kind_of_name(c.left), kind_of_name(c.comparators[0])
+        if isinstance(c.ops[0], ast.In) and (rk == "tokens" or (lk == "token" and rk is None)):
+            ok = True          # label in <tokens of the line>   /   <token> in <set of labels>
+        elif isinstance(c.ops[0], ast.Eq) and "token" in (lk, rk):
             ok = True
-        elif ds:
-            detail.append("tokens = " + "; ".join(norm(d.value) for d in ds if d.value is not None))
+        else:
+            ids = live_ids(cfg2, c)
+            ds = rd2.at(ids[0], c.comparators[0].id) if ids else []
+            if ds:
+                detail.append("tokens = " + "; ".join(norm(d.value) for d in ds if d.value is not None))
         detail.append(norm(c))
     uses_re2 = [c for c in ast.walk(ru) if isinstance(c, ast.Call) and norm(c.func).startswith("re.")]
     substr = [c for c in ast.walk(ru) if isinstance(c, ast.Compare) and isinstance(c.ops[0], ast.In) and isinstance(c.comparators[0], ast.Name)
@@ -235,7 +274,18 @@ def r05e(repo, chk):
               "get_label can return without having advanced the shared counter: two constructs receive the same label", {"counter": counter}, where)
     # every produced name contains the counter
     fstrs = [j for j in ast.walk(fn) if isinstance(j, ast.JoinedStr)]
-    okn = bool(fstrs) and counter is not None and all(any(isinstance(v, ast.FormattedValue) and norm(v.value) == counter for v in j.values) for j in fstrs)
+
+    def is_counter(v, at):
+        """the counter itself, or a local that holds the counter's value after the increment"""
+        if norm(v) == counter:
+            return True
+        if isinstance(v, ast.Name):
+            ids = live_ids(cfg, at)
+            ds = rd.at(ids[0], v.id) if ids else []
+            return bool(ds) and all(d.kind == "assign" and not d.index and d.value is not None and norm(d.value) == counter
+                                    and any(i.id in dom.get(d.node, set()) for i in incs) for d in ds)
+        return False
+    okn = bool(fstrs) and counter is not None and all(any(isinstance(v, ast.FormattedValue) and is_counter(v.value, j) for v in j.values) for j in fstrs)
     chk.judge("R05.e", "generate_code:get_label:every name contains the counter", okn,
               f"a label name is built without the counter {counter}", {"names": [norm(j) for j in fstrs]}, where)
     # the counter is shared only with get_register_name/get_constant_name, which also advance it
